@@ -13,3 +13,36 @@ Proof. reflexivity. Qed.
 (* Algorithm.get_ssh_version as it reads now (T1c translation): the product / version / client-only reading of one "available since" token *)
 Lemma tie_ssh_version : forall v, ssh_version v = src_get_ssh_version v.
 Proof. reflexivity. Qed.
+
+(* Algorithm.get_since_text as it reads now (T1c translation of the loop body and of the final join): the model's since_text is
+   "flat_map of the per-token contribution over the comma-split first component, joined" with exactly those two functions *)
+Lemma tie_since_token : forall v,
+  (match ssh_version v with
+   | (prod, ver, cli) => if String.eqb ver "" then [] else if String.eqb prod product_LibSSH then []
+                         else [prod +++ " " +++ (if cli then ver +++ " (client only)" else ver)]
+   end) = src_since_token (fst (fst (ssh_version v))) (snd (fst (ssh_version v))) (snd (ssh_version v)).
+Proof.
+  intros v. destruct (ssh_version v) as [[prod ver] cli]. cbn [fst snd]. unfold src_since_token. cbn [mem].
+  destruct (String.eqb ver ""); cbn [negb]; [reflexivity|].
+  destruct (String.eqb prod product_LibSSH); cbn [negb]; [reflexivity|]. destruct cli; reflexivity.
+Qed.
+Lemma tie_since_text : forall vers,
+  since_text vers =
+  match vers with
+  | Some v0 :: _ =>
+      match flat_map (fun v => src_since_token (fst (fst (src_get_ssh_version v))) (snd (fst (src_get_ssh_version v))) (snd (src_get_ssh_version v))) (split_on ","%char v0) with
+      | [] => None
+      | tv => Some (src_since_join tv)
+      end
+  | _ => None
+  end.
+Proof.
+  intros [|[v0|] r]; try reflexivity. unfold since_text.
+  assert (E: forall l, flat_map (fun v => match ssh_version v with
+                                   | (prod, ver, cli) => if String.eqb ver "" then [] else if String.eqb prod product_LibSSH then []
+                                                         else [prod +++ " " +++ (if cli then ver +++ " (client only)" else ver)]
+                                   end) l
+             = flat_map (fun v => src_since_token (fst (fst (src_get_ssh_version v))) (snd (fst (src_get_ssh_version v))) (snd (src_get_ssh_version v))) l).
+  { induction l as [|x l IH]; [reflexivity|]. cbn [flat_map]. rewrite IH. f_equal. exact (tie_since_token x). }
+  rewrite E. destruct (flat_map _ _); reflexivity.
+Qed.
